@@ -386,7 +386,7 @@ func runC01(c *Ctx) {
 	start := time.Now()
 	nGen, nSched := 150, 2
 	if c.Thorough {
-		nGen, nSched = 1800, 3
+		nGen, nSched = 1200, 3
 	}
 	if v := os.Getenv("C01_NGEN"); v != "" {
 		fmt.Sscan(v, &nGen)
